@@ -178,7 +178,9 @@ def compare(a, b):
     if a["status"] != "ok":
         return out
     wa, wb = np.array(a["w"], dtype=float), np.array(b["w"], dtype=float)
-    if wa.shape != wb.shape or not np.allclose(wa, wb, rtol=1e-10, atol=1e-10 * (1 + np.abs(wb).max() if wb.size else 1), equal_nan=True):
+    fin = np.abs(wb[np.isfinite(wb)])
+    scale = 1 + (float(fin.max()) if fin.size else 0.0)           # (non-finite entries must match as such: equal_nan)
+    if wa.shape != wb.shape or not np.allclose(wa, wb, rtol=1e-10, atol=1e-10 * scale, equal_nan=True):
         # the inserted checks change vectorisation, hence rounding; with a working set of one feature a rounding-level difference can flip
         # a tie of the working-set selection and send the two runs along different trajectories to the same tolerance-level solution.
         # An out-of-bounds index itself always raises in the checked run, so such a pair is accepted when both runs succeeded and agree
